@@ -469,6 +469,32 @@ func (h *c20Hist) sourceOp() {
 				}
 			}
 		}
+	case x < 69: // a name leaves a metric and comes back to it while another metric held it for a while;
+		// a lagging (or compact) replica may never see the first metric change at all
+		if m := pickMetric(); m != nil {
+			n1, ok1 := h.freeMetricName()
+			if !ok1 {
+				return
+			}
+			orig := m.spec.Name
+			h.renameMetric(m, n1)
+			other := h.createMetric(orig)
+			if rnd.IntN(2) == 0 {
+				h.editMetric(m, false)
+			}
+			for k := rnd.IntN(3); k > 0; k-- {
+				rp := h.reps[rnd.IntN(len(h.reps))]
+				h.logOp("deliver %s cut=small (inside name ping-pong)", rp.name)
+				h.deliver(rp, 1+rnd.IntN(3), data_model.MaxJournalItemsSent, data_model.MaxJournalBytesSent)
+			}
+			if n2, ok2 := h.freeMetricName(); ok2 {
+				h.renameMetric(other, n2)
+				h.renameMetric(m, orig)
+				if rnd.IntN(2) == 0 {
+					h.editMetric(other, rnd.IntN(2) == 0)
+				}
+			}
+		}
 	case x < 74: // create group
 		n := c20Prefixes[rnd.IntN(len(c20Prefixes))]
 		if !h.groupNameUsed(n) {
